@@ -6,6 +6,7 @@ import (
 	"os"
 	"reflect"
 	"runtime/debug"
+	"strconv"
 	"strings"
 	"sync"
 	"time"
@@ -45,30 +46,31 @@ type Program struct {
 }
 
 type Worker struct {
-	id             int
-	ex             *Explorer
-	cfg            *Config
-	P              *Program
-	solver         *Solver
-	cross          []*Solver
-	interp         *Interp
-	harnessPkg     *ssa.Package
-	harnessFn      *ssa.Function
-	domainDecided  int64
-	modelDecided   int64
-	assertQueries  int
-	assertsChecked int64
-	crossChecked   int
-	crossDisagree  int
-	intrinsicsUsed map[string]bool
-	nativesUsed    map[string]bool
-	stubsUsed      map[string]bool
-	samples        []PathSample
-	steps          int64
-	forks          int64
-	maxDepth       int
-	tf             *TermFactory
-	solverDirty    bool
+	id              int
+	ex              *Explorer
+	cfg             *Config
+	P               *Program
+	solver          *Solver
+	cross           []*Solver
+	interp          *Interp
+	harnessPkg      *ssa.Package
+	harnessFn       *ssa.Function
+	domainDecided   int64
+	modelDecided    int64
+	assertQueries   int
+	assertsChecked  int64
+	crossChecked    int
+	crossDisagree   int
+	intrinsicsUsed  map[string]bool
+	nativesUsed     map[string]bool
+	stubsUsed       map[string]bool
+	samples         []PathSample
+	steps           int64
+	forks           int64
+	maxDepth        int
+	tf              *TermFactory
+	solverDirty     bool
+	pathsSinceReset int
 }
 
 // LoadProgram loads the package under test with the harness files overlaid.
@@ -213,9 +215,12 @@ func (w *Worker) runPath(prefix []Decision) {
 	} else {
 		w.tf.Recycle()
 	}
-	if w.solverDirty {
+	w.pathsSinceReset++
+	if w.solverDirty || w.pathsSinceReset >= 32 {
+		// z3 4.8 slows down as popped definitions accumulate: start afresh regularly.
 		w.solver.Reset()
 		w.solverDirty = false
+		w.pathsSinceReset = 0
 	}
 	scope := w.solver.Push()
 	p := &Path{
@@ -270,7 +275,6 @@ func (w *Worker) runPath(prefix []Decision) {
 			defer func() { recover() }()
 			i.p = p
 			p.ensureModel()
-			i.p = nil
 			m := map[string]uint64{}
 			for _, v := range p.inputs {
 				m[v.name] = p.model[v.name]
@@ -279,7 +283,13 @@ func (w *Worker) runPath(prefix []Decision) {
 			for k, v := range p.choices {
 				ch[k] = v
 			}
-			w.samples = append(w.samples, PathSample{Decisions: p.decStr(), Model: m, Choices: ch, Observed: p.observed, End: end})
+			// observations are rendered under the sample's own model
+			var obs []string
+			for _, o := range p.observedRaw {
+				obs = append(obs, o.label+"="+strconv.Quote(i.render(nil, o.v)))
+			}
+			i.p = nil
+			w.samples = append(w.samples, PathSample{Decisions: p.decStr(), Model: m, Choices: ch, Observed: obs, End: end})
 		}()
 	}
 	if end == "solver" {
